@@ -163,7 +163,7 @@ Proof.
   destruct (if first && negb match cache_get ns_StartTLS (m_cache m) with Some _ => true | None => false end
                && negb (has (m_bits m) st_Secure)
             then find_space ns_StartTLS (c_feats c) else None) as [f|].
-  - destruct (f_neg f); [apply init_loop_ev|apply normal_path_ev].
+  - destruct (f_neg f && eligible f (m_bits m)); [apply init_loop_ev|apply normal_path_ev].
   - apply normal_path_ev.
 Qed.
 
